@@ -40,6 +40,8 @@ type c13File struct {
 	pages  []c13Page
 	nrg    int
 	groups []int64 // rows per row group
+	// pages the writer emitted with a body but without a checksum
+	unprotected []string
 }
 
 type c13Page struct {
@@ -166,7 +168,9 @@ func c13BuildFile(idx int) *c13File {
 					if in.BodyLen == 0 {
 						continue // the dictionary page of a column without values: no body to damage (the CRC-32 of nothing is 0)
 					}
-					panic("page without CRC")
+					// a page with a body and no checksum: nothing can detect a change of its bytes
+					f.unprotected = append(f.unprotected, fmt.Sprintf("row group %d column %s page #%d (%d bytes)", rg, p.colName, i, in.BodyLen))
+					continue
 				}
 				f.pages = append(f.pages, p)
 			}
@@ -439,6 +443,10 @@ func c13Run(x *engine.X) {
 	root := x.Choose(nfiles*len(c13Paths), "file*path")
 	fi, path := root/len(c13Paths), c13Paths[root%len(c13Paths)]
 	f := engine.Memo(x, fmt.Sprintf("c13file%d", fi), func() *c13File { return c13BuildFile(fi) })
+	if len(f.unprotected) > 0 {
+		x.Failf("unprotected-page", "file="+f.desc, "the writer emitted pages with a body but no checksum, a change of their bytes cannot be detected: %v", f.unprotected)
+		return
+	}
 	pi := x.Choose(len(f.pages), "page")
 	pg := f.pages[pi]
 	faults := c13Faults
